@@ -4,7 +4,7 @@ import re
 from ..cfg import Renderer, walk, show, flat_guards, branches
 from ..facts import callee_names, short
 from ..sig import fn_tokens
-from ..util import view, crate_fns, root_name, expr_calls, expr_fields, expr_vars, loops, last_field
+from ..util import view, crate_fns, root_name, expr_calls, expr_fields, expr_vars, loops, last_field, emission_blocks
 
 EXPLANATION = (
     "Static rules over daemon/src/event/export.rs, peer_tx.rs, event/mod.rs and table_manager.rs (MIR): R01.1 the initial dump "
@@ -192,8 +192,8 @@ def check_drain_order(prog, r):
     keyed by recycled ids, so one prefix can be pending as a withdrawal (old id) and as an announcement (new id)."""
     fv = view(prog, prog.one(r"rustybgpd::peer_tx::PendingTx::drain_messages"))
     r.analysed(fv.name)
-    un = [b for b, si, s in fv.aggregates(re.compile(r"rustybgp_packet::bgp::Update"), "Unreach")]
-    re_ = [b for b, si, s in fv.aggregates(re.compile(r"rustybgp_packet::bgp::Update"), "Reach")]
+    un = emission_blocks(prog, fv, re.compile(r"rustybgp_packet::bgp::Update"), "Unreach")
+    re_ = emission_blocks(prog, fv, re.compile(r"rustybgp_packet::bgp::Update"), "Reach")
     if not un or not re_:
         r.unanalysable("drain_messages: Update::Unreach x%d, Update::Reach x%d constructions" % (len(un), len(re_)), fv.loc())
         return
